@@ -228,6 +228,7 @@ def run_unit(name, seed, tier):
     r.update(refuted=refuted, undecided=undecided, labels=u.labels, functions=u.functions, rewrites=u.rewrites,
              assumptions=u.assumptions, verified=vr.get("verified", 0), errors=vr.get("errors", 0),
              times=function_times(res), dropped=u.dropped, label_props=u.cfg.get("label_props", {}),
+             unit_props=u.cfg.get("unit", {}).get("properties", []),
              lemmas=[dict(fn=x[2], label=x[4]) for x in u.fn_ranges if x[3] == "lemma" and x[5] == "proof"],
              std_assumed=u.cfg.get("unit", {}).get("assumes", []))
     # vacuity smoke: every contracted function with `ensures false` appended must FAIL
@@ -380,7 +381,11 @@ def check_property(prop, tier, seed, quiet=False):
             obligations.append(lab)
             if lab not in failed_labels and not (info["fn"] in failed_fns and info["kind"] == "lemma") and not r["undecided"]:
                 discharged.append(lab)
+        fns_with_prop_label = {info["fn"] for lab, info in r["labels"].items() if label_in_prop(lab, prop, extra)}
+        primary = (r.get("unit_props") or [prop])[0] == prop
         for f in r["functions"]:
+            if not primary and f["fn"] not in fns_with_prop_label:
+                continue   # a secondary property of this unit only counts the functions that carry one of its labels
             ob = f"{f['fn']}#body" if not f.get("implicit_label") else f["implicit_label"]
             if f.get("implicit_label") and not f["implicit_label"].startswith(prop + "."):
                 ob = f"{f['fn']}#body"
